@@ -222,6 +222,15 @@ func (d *Ledger) ActAdversarial() {
 			rcpt = d.W.Addr(caller)
 		}
 	}
+	wrapped := false
+	if fn == "MultiESDTNFTTransfer" && !plain && len(args) >= 4 && d.chance(15) {
+		// a transfer count n >= 2^63 chosen so that 3n + 2 wraps around 2^64 to (just below) the number of arguments present:
+		// both length guards must hold against it, from a well-formed destination on the sender's own shard
+		t := uint64(len(args) - d.R.Intn(4))
+		args[0], args[1] = d.destFor(caller), u64b((t-2)*inv3)
+		rcpt = d.W.Addr(caller)
+		wrapped = true
+	}
 	c := &world.Call{Fn: fn, Caller: d.W.Addr(caller), Rcpt: rcpt, Args: args, Value: big.NewInt(0), CT: vmcommon.CallType(d.R.Intn(4)), RAE: d.chance(5)}
 	switch d.R.Intn(5) {
 	case 0:
@@ -236,6 +245,9 @@ func (d *Ledger) ActAdversarial() {
 	}
 	if plain {
 		c.Gas, c.CT, c.RAE, c.Value = 700000, vmcommon.DirectCall, false, big.NewInt(0)
+	}
+	if wrapped {
+		c.Gas, c.Value = ^uint64(0), big.NewInt(0)
 	}
 	if fn == "MultiESDTNFTTransfer" && len(c.Args) > 1 && len(c.Args[1]) >= 8 && d.chance(70) {
 		c.Gas = ^uint64(0) // a wrapped count also wraps count*cost: give the path past the gas guard a chance
